@@ -359,9 +359,16 @@ theorem index_agrees_by_address (hC : ∀ a, cfg.canon (cfg.canon a) = cfg.canon
   simp only [hc]
 
 omit [DecidableEq κ] in
-/-- PARTIAL (the full statement — the `ReverseLookup` query lists the names bound to the address
-it is asked about, however that address is spelled — is false: `reverse_lookup_spelling`): asked
-with the canonical spelling, the query answers with exactly the names of the by-address listing. -/
+/-- The `ReverseLookup` query lists the names bound to the address it is asked about, however
+that address is spelled: it answers with exactly the names of the by-address listing of the
+canonical spelling (full statement since the repair; before it only for `canon a = a`, see
+`reverse_lookup_spelling_before_fix`). -/
+theorem reverse_lookup_agrees (st : State κ) {a : Addr} (hok : cfg.addrOk a = true) :
+    reverseLookup cfg st a = .ok ((getRecordsByAddress st (cfg.canon a)).map (·.name)) := by
+  simp [reverseLookup, getRecordsByAddress, hok]
+
+omit [DecidableEq κ] in
+/-- the earlier partial statement, kept: asked with the canonical spelling -/
 theorem reverse_lookup_agrees_partial (st : State κ) {a : Addr} (hok : cfg.addrOk a = true)
     (hc : cfg.canon a = a) :
     reverseLookup cfg st a = .ok ((getRecordsByAddress st a).map (·.name)) := by
@@ -632,17 +639,22 @@ example :
       some (some ⟨de, "A", true⟩, [⟨de, "A", true⟩],
         some [⟨bc ++ dot :: de, "B", false⟩, ⟨abcde, "B", false⟩], false) := by decide
 
-/-- NEGATION of "the by-address lookup lists exactly the names bound to each address" for the
-`ReverseLookup` QUERY asked with a non-canonical spelling: after the genesis import above the root
-`de` is bound to A; asked about `A` the query lists it, asked about the same address spelled `A^`
-(which `sdk.AccAddressFromBech32` accepts) it lists nothing, because it filters the index entries
-by comparing the stored address with the request string as written (query_server.go:59).  Known
-finding `C15-reverse-lookup-spelling`. -/
-theorem reverse_lookup_spelling :
+/-- BEFORE THE REPAIR the `ReverseLookup` QUERY asked with a non-canonical spelling negated "the
+by-address lookup lists exactly the names bound to each address": after the genesis import above
+the root `de` is bound to A; asked about `A` the query listed it, asked about the same address
+spelled `A^` (which `sdk.AccAddressFromBech32` accepts) it listed nothing, because it filtered
+the index entries by comparing the stored address with the request string as written
+(query_server.go:59). The repaired query lists it under both spellings. Finding
+`C15-reverse-lookup-spelling` (fixed). -/
+theorem reverse_lookup_spelling_before_fix :
     (initGenesis scfg {} spelledGenesis).toOption.map (fun s =>
-      ((reverseLookup scfg s "A").toOption, (reverseLookup scfg s "A^").toOption,
+      ((reverseLookupPreFix scfg s "A").toOption, (reverseLookupPreFix scfg s "A^").toOption,
         getRecordsByAddress s (scfg.canon "A^"))) =
-      some (some [de], some [], [⟨de, "A", true⟩]) := by decide
+      some (some [de], some [], [⟨de, "A", true⟩]) ∧
+    (initGenesis scfg {} spelledGenesis).toOption.map (fun s =>
+      ((reverseLookup scfg s "A").toOption, (reverseLookup scfg s "A^").toOption)) =
+      some (some [de], some [de]) := by
+  constructor <;> decide
 
 /-! ### non-vacuity -/
 
